@@ -168,22 +168,28 @@ def __str_to_derivable_program__(
     word: str, primitives_used: Set[Primitive], variables: TList[Variable]
 ) -> TList[DerivableProgram]:
     all_primitives = sorted(primitives_used, key=lambda p: p.primitive, reverse=True)
+    # a set of names is written the same way everywhere: "#[a,b]", "#(_)", ">(^a)"
+    word = word.strip("(){}[]")
     if word == SYMBOL_ANYTHING:
         out: TList[DerivableProgram] = all_primitives  # type: ignore
         out += variables
         return out
-    word = word.strip("(){}")
+    if word.startswith(SYMBOL_FORBIDDEN):
+        forbidden = set(word[1:].split(SYMBOL_SEPARATOR))
+        out = [P for P in all_primitives if P.primitive not in forbidden]
+        out += [V for V in variables if str(V) not in forbidden]
+        return out
     allowed = set(
         [word] if not SYMBOL_SEPARATOR in word else word.split(SYMBOL_SEPARATOR)
     )
     primitives: TList[DerivableProgram] = [
         P for P in all_primitives if P.primitive in allowed
     ]
-    svar = sorted(variables, key=lambda x: x.variable)
     for el in allowed:
         if el.startswith("var"):
+            # "varK" is the variable number K (not the K-th variable in use)
             varno = int(el[3:])
-            primitives.append(svar[varno])
+            primitives += [V for V in variables if V.variable == varno]
     return primitives
 
 
